@@ -54,7 +54,7 @@ func runBin(name string, args []string, dir string, stdin []byte, env []string, 
 	defer cancel()
 	cmd := exec.CommandContext(ctx, binPath(name), args...)
 	cmd.Dir = dir
-	cmd.Env = append(append([]string{}, os.Environ()...), "GOTRACEBACK=all", "GOMAXPROCS=2", "GOMEMLIMIT=2GiB")
+	cmd.Env = append(append([]string{}, os.Environ()...), "GOTRACEBACK=all", "GOMAXPROCS=2", "GOGC=off", "GOMEMLIMIT=1GiB")
 	cmd.Env = append(cmd.Env, env...)
 	var so, se bytes.Buffer
 	cmd.Stdout = &so
